@@ -302,6 +302,9 @@ func (w *jsonWorld) Exec(p *Plan, st *RunStats) *Violation {
 				removals++
 			}
 		}
+		if traceOn {
+			trace("op %d %s -> %016x", op.ID, op.N, hashStr(s.Obs()))
+		}
 		if o.Failed() {
 			break
 		}
